@@ -508,9 +508,14 @@ func runController(c *core.Case, p *plan) {
 		c.Sample(map[string]any{"segment_size": p.segSize, "compression": p.compr, "records": len(p.recs), "first_sizes": sizes, "batches": p.batches[:min(10, len(p.batches))],
 			"page_flushes": flushes, "live_pumps": pumps, "pumps_inside_log": hookReads, "segments": nseg})
 	}
+	// Byte-wise visibility: a reader of a file that is being written may see any prefix of it
+	// (a write is not atomic for concurrent readers).  Re-create the log in a shadow directory in
+	// small random increments and pump a LiveReader after each one: it must deliver exactly the
+	// records, and never report anything but io.EOF on a prefix.
+	if !c.Violated() {
+		shadowTail(c, r, dir, p)
+	}
 }
-
-// ---------------------------------------------------------------- free-running mode
 
 func runFree(c *core.Case) {
 	r := c.SubRng("free")
@@ -716,4 +721,71 @@ func run(c *core.Case) {
 	if !c.Violated() && c.Idx%4 == 0 {
 		runFree(c)
 	}
+}
+
+func shadowTail(c *core.Case, r *rand.Rand, dir string, p *plan) {
+	first, last, err := wlog.Segments(dir)
+	if err != nil || last < 0 {
+		return
+	}
+	shadow := c.TempDir()
+	t := newTailer(shadow)
+	defer t.close()
+	budget := 160 * 1024 // bytes replayed byte-wise per case
+	delivered := 0
+	grows := 0
+	justDelivered := false
+	for seg := first; seg <= last && budget > 0; seg++ {
+		src, err := os.ReadFile(wlog.SegmentName(dir, seg))
+		core.Must(err, "read segment")
+		f, err := os.OpenFile(wlog.SegmentName(shadow, seg), os.O_CREATE|os.O_WRONLY|os.O_APPEND, 0o644)
+		core.Must(err, "create shadow segment")
+		off := 0
+		for off < len(src) && budget > 0 {
+			n := 1 + r.IntN(12)
+			before := delivered
+			switch r.IntN(10) {
+			case 0:
+				n = 1 + r.IntN(600)
+			case 1:
+				n = 1 + r.IntN(40000)
+			}
+			if justDelivered && r.IntN(4) != 0 {
+				n = 1 + r.IntN(6) // stop inside the next fragment header
+			}
+			if off+n > len(src) {
+				n = len(src) - off
+			}
+			_, err := f.Write(src[off : off+n])
+			core.Must(err, "grow shadow segment")
+			off += n
+			budget -= n
+			grows++
+			kind, msg := t.pump(func(rec []byte) bool {
+				if delivered >= len(p.recs) || !bytes.Equal(rec, p.recs[delivered]) {
+					c.Violatef("live-sequence-mismatch", "byte-wise tail: LiveReader record %d differs from the written one (segment %d, %d of %d bytes visible): got %s", delivered, seg, off, len(src), describe(rec))
+					return false
+				}
+				delivered++
+				t.got = append(t.got, nil)
+				return true
+			})
+			justDelivered = delivered > before
+			if kind != "" {
+				c.Violatef(kind+"-on-partial-write", "byte-wise tail with %d of %d bytes of segment %d visible: %s", off, len(src), seg, msg)
+				f.Close()
+				return
+			}
+			if c.Violated() {
+				f.Close()
+				return
+			}
+		}
+		f.Close()
+		if off < len(src) {
+			break
+		}
+	}
+	c.Count("bytewise_tail_grow_steps", int64(grows))
+	c.Count("bytewise_tail_records", int64(delivered))
 }
